@@ -30,6 +30,17 @@ Alphabet   = two tiers, see DESIGN "C03":
                 calibration, source untouched, in-place == copying); a spelling the library rejects must raise and
                 change nothing (not a failure: the property names integers, slices, lists and Ellipsis); the
                 evidence lists accepted / rejected counts per spelling (coverage.spellings).
+   Extension tier  (own small BFS, depth 3 quick / 4 thorough, from 7 further initials incl. user subclasses):
+                REGISTRATION events (Dataset.register_dimension(n) of a harness class for a dimensionality without a
+                class, and a replacement) interleaved with copy / pad / crop / bin / resample (both variants) /
+                indexing: the class of every result is the class registered for its dimensionality AT THE TIME OF
+                THE CALL, for fresh, copy-born and index-born objects alike (the canonical key of this tier carries
+                the harness-side lineage of the object, so that dedup cannot hide them). USER SUBCLASSES: extra
+                attributes + _copy_custom_attributes hook, validating factories (square only / max size) that
+                refuse some results, a property: a refusal (the harness exception class) must leave the source /
+                the object bit-identical and usable, custom attributes follow the documented copy semantics.
+                TWINS by copy.copy / copy.deepcopy / pickle / .copy(): equal to the original, behave like it,
+                in-place operations on one never change the other. Dataset._registry is owned like module state.
 Checks     every state: one origin/sampling/units entry per axis, class vs dimensionality;
            every transition: result == reference model (incl. calibration arithmetic), source
            bit-identical after every copying operation and not aliased by the result, in-place
@@ -98,7 +109,10 @@ CLAIM = (
     "and units have one entry per axis and the class matches the dimensionality. A widened argument tier (output shapes with "
     "independently smaller / equal / larger components, no-op, mixed, reversed-order and negative axes forms) is applied in the "
     "shallow states, together with a spelling tier: the same requests written with NumPy integer scalars, lists / tuples / arrays, "
-    "np.float64 factors etc. must behave exactly like the canonical spelling or be rejected without changing anything. The thorough tier adds all histories of "
+    "np.float64 factors etc. must behave exactly like the canonical spelling or be rejected without changing anything. An extension tier "
+    "explores histories with later registrations through Dataset.register_dimension (class of every result = class registered for its "
+    "dimensionality at the time of the call), user subclasses with copy hooks, validating factories and properties (a refused operation "
+    "leaves its source bit-identical) and twins made by copy.copy / deepcopy / pickle / .copy() (isolated from the original). The thorough tier adds all histories of "
     "length 8 with at most 2 deviations from a slice-pad-crop-bin cycle. Model checking is the right level because the property "
     "quantifies over histories of a small operation alphabet and names the depth."
 )
@@ -109,14 +123,17 @@ NOTE = (
     "gets the odd element of pad(output_shape), rounding of n*factor at .5, result dtypes of bin / resample. Indexing may return "
     "views (NumPy semantics); for index tuples where NumPy moves the list axis to the front the literal 'kept axes in order' "
     "calibration is demanded. pad(output_shape) with a component smaller than the axis leaves that axis as it is (a pad never "
-    "removes data). Negative axes count from the end. Empty arrays as operands are outside the alphabet."
+    "removes data). Negative axes count from the end. Empty arrays as operands are outside the alphabet. The extension tier sets and "
+    "restores Dataset._registry (internal name; the tier is skipped and reported as seam_missing when it is absent); custom attributes "
+    "of index results are not demanded (indexing constructs through from_array, nothing documented)."
 )
 RULE = (
     "BFS with canonical-state dedup from every initial dataset, sharded by (initial, first event); the inner alphabet A_in(ndim) "
     "is applied in every state below the depth bound, the full index alphabet A_full(ndim), the widened argument tier A_wide(ndim) and the spelling tier A_spell(ndim) in every state up to the stated depths; "
     "all tiers are enumerated completely. Every executed variant (copying, in-place) is one transition compared with the "
     "reference model. A transition is non-trivial when it discovers a canonical state not seen before; distinct_nontrivial is the "
-    "number of distinct canonical states beyond the initial ones."
+    "number of distinct canonical states beyond the initial ones. The extension tier runs its own BFS whose state additionally holds the registry, "
+    "the custom attribute values and the lineage of the object (fresh / copy-born / index-born and the registry at that moment)."
 )
 
 TOL_SINGLE = 2e-4
